@@ -28,6 +28,11 @@ func (f *Float) Value() float64 {
 }
 
 func (f *Float) HashKey() HashKey {
+	if math.IsNaN(f.value) {
+		// NaN != NaN: as a Go map key it could never be found again, and it has
+		// no place in the order of the other floats. Give it a key of its own.
+		return HashKey{Type: f.Type(), StrValue: "NaN"}
+	}
 	return HashKey{Type: f.Type(), FltValue: f.value}
 }
 
